@@ -499,4 +499,39 @@ example : iterator demoLog { lte := some [[2]], gt := some [5] } = .ok [d2] true
     iterator demoLog { lte := some [[2]], gte := some [5] } = .ok [d2, d1] true ∧
     iterFull demoLog [d2] = [d2, d1] := by decide
 
+
+/-! ## both lower bounds at once (`GTE = g` and `GT = g'`) -/
+
+/-- **Range with both lower bounds given.**  The code takes `GTE` as the end of the traversal
+    (log.go: `endHash` prefers `GTE`) and then, because `GT` is non-nil, drops the last entry, which
+    is the `GTE` bound itself: the emission is the part of the full emission strictly before `g`,
+    whatever `g'` is; with an amount, the last `amount` of these.  The range is therefore still
+    inside "down to the lower bound", with `g` treated as exclusive. -/
+theorem iter_range_gte_gt {U : List Entry} {l : Log} (I : Inv U l) (ho : OrderOk l.sortFn l.entries)
+    (o : IterOpts) (out : List Entry) (c : Bool) (start : List Entry)
+    (h : iterator l o = .ok out c) (ha : o.amount ≠ some 0) (hs : iterStart l o = .ok start)
+    (g g' : Hash) (x : Entry) (hgte : o.gte = some g) (hgt : o.gt = some g')
+    (hx : x ∈ iterFull l start) (hxg : x.hash = g) :
+    let w := (iterFull l start).takeWhile (fun e => e.hash != g)
+    (o.amount = none → out = w) ∧
+    (∀ a, o.amount = some a → 0 ≤ a → out = w.drop (w.length - a.toNat)) := by
+  intro w
+  have C := ctxG_of_inv I ho
+  have hin := iterStart_mem I o start hs
+  have hroots : ∀ r ∈ omFromList start, r ∈ l.entries := fun r hr => hin r (mem_omFromList hr)
+  have hend : iterEnd o = some g := by simp [iterEnd, hgte]
+  have hcnt : iterCount o = -1 := by simp [iterCount, hend]
+  have hT : traverseG l.entries (before l.sortFn) (omFromList start) (iterCount o) (iterEnd o) = w ++ [x] := by
+    rw [hcnt, hend]; exact traverse_endHash C hroots hx hxg
+  have hout : out = iterKeepLast o w := by
+    rw [iterator_ok_eq h ha hs, hT]
+    simp [iterTrim, iterDropGt, hgt]
+  rw [hout]
+  exact ⟨fun hamt => iterKeepLast_none hamt w,
+    fun a hamt h0 => iterKeepLast_some hamt h0 (Or.inl (by simp [hgt])) w⟩
+
+/-- the premises are met by the demo log: `GTE = d2`, `GT = d1` from `d4` emits `d4, d3` -/
+example : iterator demoLog { lte := some [[4]], gte := some [2], gt := some [1] } = .ok [d4, d3] true ∧
+    iterFull demoLog [d4] = [d4, d3, d2, d1] := by decide
+
 end Model.C15
